@@ -22,14 +22,15 @@ Fixpoint remove_task (l : list (nat * (call * pc))) (t : nat) : list (nat * (cal
   | (t', x) :: r => if Nat.eqb t t' then remove_task r t else (t', x) :: remove_task r t
   end.
 
-Fixpoint update_task (l : list (nat * (call * pc))) (t : nat) (x : call * pc) : list (nat * (call * pc)) :=
+(** insert or update *)
+Fixpoint put_task (l : list (nat * (call * pc))) (t : nat) (x : call * pc) : list (nat * (call * pc)) :=
   match l with
-  | [] => []
-  | (t', y) :: r => if Nat.eqb t t' then (t', x) :: r else (t', y) :: update_task r t x
+  | [] => [(t, x)]
+  | (t', y) :: r => if Nat.eqb t t' then (t', x) :: r else (t', y) :: put_task r t x
   end.
 
 Definition set_pc (s : state) (t : nat) (c : call) (p : pc) : state :=
-  set_tasks s (update_task (tasks s) t (c, p)).
+  set_tasks s (put_task (tasks s) t (c, p)).
 
 (** the call returns: the task leaves the table *)
 Definition finish_call (s : state) (t : nat) (c : call) (r : result) : state :=
@@ -170,7 +171,8 @@ Definition enter (s : state) (t : nat) (c : call) (part2 : bool) : state :=
 (** `async with self._lock`: immediate if free and nobody waits *)
 Definition acquire (s : state) (t : nat) (c : call) (part2 : bool) : state :=
   match holder s, lockq s with
-  | None, [] => enter (set_holder s (Some t)) t c part2
+  | None, [] =>
+    enter (set_pc (set_holder s (Some t)) t c (if part2 then Granted2 else Granted1)) t c part2
   | _, _ => set_pc (set_lockq s (lockq s ++ [t])) t c (if part2 then WaitLock2 else WaitLock1)
   end.
 
@@ -185,7 +187,7 @@ Definition do_call (s : state) (t : nat) (c : call) : state :=
   match find_task (tasks s) t with
   | Some _ => s                        (* the task is busy: not a possible label *)
   | None =>
-    let s0 := set_tasks s ((t, (c, WaitLock1)) :: tasks s) in
+    let s0 := s in
     match c with
     | CStart =>
       if nl_started s0 then finish_call s0 t c ROk
